@@ -34,6 +34,10 @@ UNIT = {
         {"kind": "raw", "label": "fn_abi_spec", "text": SPEC},
         {"kind": "fn", "file": FN, "name": "is_variadic", **FS, "ret": "r",
          "ensures": ["r == (self.is_variadic && self.argument_types@.len() != 0)"]},
+        {"kind": "const", "file": FN, "name": "RUST_DERIVE_FUNPTR_LIMIT"},
+        # C08: the ">12-argument function pointers" rule, for EVERY argument count (replaces the bounded Kani stand-in)
+        {"kind": "fn", "file": FN, "name": "function_pointers_can_derive", **FS, "ret": "r",
+         "ensures": ["r == (self.argument_types@.len() <= 12 && (self.abi == ClangAbi::Known(Abi::C) || self.abi is Unknown))"]},
         {"kind": "fn", "file": FN, "name": "abi", **FS, "ret": "r",
          "subst": [
              (OVERRIDE_1, "ctx.abi_override_for(name)", 1, "R5"),
